@@ -308,4 +308,21 @@ PROPS = {
         'level_text': 'C09 on executable models of the three readers, run on the very bytes the real code reads: an SST opened from arbitrary bytes (trailer, FinalBlock/BlockMetadata/SstEntry through the derive-macro interpreter with the source\'s error codes, sanity and ordering checks, CRC check on every load, Block::new, lazily loading cursor, load, metadata), the log reader with log_to_builder/log_to_setsum, ManifestIterator item by item with Manifest::open. Theorems: every entry any SST read returns comes from a block whose payload matched its recorded CRC and the index entries from a payload matching the CRC in the final block (sst_reads_are_guarded, open_guarded); relative to the CRC hypothesis every read of a table damaged behind its checksums is an error or the pristine answer, walks are the pristine walk or a prefix of it followed by an error (sst_single_burst, refines_of_no_collision, data_block_damage_opens); final_block_cases classifies any replacement of the unchecksummed tail as rejected / metadata-only / redirected-to-a-CRC-matching-triple, and final_block_metadata_not_detected exhibits D-10 on the bytes of a real SST by kernel evaluation; log: reads_agree_before_damage, crc_mismatch_is_error, truncated_log_prefix, zero_length_is_padding (the mechanism of D-11); manifest: torn_manifest, mani_line_guarded. The check builds SSTs, logs (one crossing a 1 MiB block boundary) and manifests with the real code and reads, with the real code in a child process under RLIMIT_AS and with the model, every single-bit flip, every truncation length, overwrites, suffixes and short damage sequences of every file.',
         'level_note': 'Trusted: Lean kernel; axioms propext, Classical.choice, Quot.sound; CRC-32C as a parameter, detection as a hypothesis; correspondence is agreement on the generated damage (exhaustive per file for bit flips and truncations); panic- and allocation-freedom are observations. Findings: D-3 (log_to_builder/log_to_setsum unwrap a reader error; fixes/d3-log-to-builder-unwrap.diff), D-10 (final block unchecksummed: setsum/timestamps returned as genuine; format), D-11 (a header-length byte zeroed 20 bytes before a block boundary drops a frame silently; format/reader).',
     },
+    'C06': {
+        'trusted': ['event order of a run = order of the lsmtk::verif event log (one mutex-protected vector; hooks/lsmtk-kvs-events.diff): events of the critical sections of write / load / range_scan / _memtable_thread are emitted while the store mutex is held, so their order is the real order; log-append, insert and install events are emitted by the acting thread right after the action (the model\'s answers do not depend on their exact position: snapshot_stable); client invocation / response marks go into the same log',
+                    'the flush and compaction loops are the real ones, polled: cfg(rescrv_blue_verif) single-step makes them return to the caller where they would sleep on their condition variable, and the harness calls them again from their own threads',
+                    'tombstones carry no payload: a read that returns nothing is attributed, for the linearizability oracle, to the oldest delete (or the empty start) that no completed write or earlier read rules out and that its hook timestamp covers'],
+        'assumptions': ['sequentially consistent execution of the steps: a step of the model is a critical section under the store mutex or one lock-free access (log append, one skiplist insert, one skiplist search); std::sync::Mutex gives mutual exclusion and happens-before, Condvar / WaitList::naked_wait release and re-acquire the mutex and may wake spuriously (the model only asks that a writer or the flush thread proceeds as head of the list)',
+                        'the skiplist is linearizable per entry (an insert becomes visible to searches at one instant and stays; C17) and the wait list hands the head on in link order (C18: wl_head_is_oldest)',
+                        'a snapshot\'s lookup = newest entry not newer than its timestamp among mem, imm and the version: the cursor stack (merging / pruning / bounds) and the SST read path are C03 / C11 / C10, compaction and garbage collection preserve the newest version of every key (C01 / C05); the model keeps a flushed table\'s entries addressable by the table\'s number',
+                        'scans are kept apart from the two instants at which resources an open cursor points into are released (memtable dropped after imm = None: D-4; files renamed to trash after a compaction: D-5) - use-after-free / file-not-found there belong to C07; loads cover every instant',
+                        'a batch naming one key twice is outside the model (D-16: SkipList::insert asserts); generated only in its own stream, where the assert and the failing reopen are confirmed',
+                        'sequence numbers and the wait list ring do not wrap (u64 counters; at most 9 threads linked)'],
+        'partial': ['linearizability is proved as its obligations on the model (write_order, no_stale_read + snapshot_after_return_covers, no_phantom, batch_atomic, snapshot_stable for the linearization "writes in sequence order at wFin, reads at their snapshot"), and checked as such (exact single-register check with the write order given by the sequence numbers) on every recorded history; the statement "there exists a linearization" over an abstract history type is not a separate Lean theorem',
+                    'returned_batch_fully_visible (= batch_atomic_partial for the store as found): a batch whose write has returned is entirely visible; for batches still being inserted the statement is false as found (batch_atomic_fails_as_found, partial_batch_visible) and is batch_atomic for the repaired read timestamp',
+                    'the duplicate the snapshot can hold between version install and imm = None (Rollover.snapshot_complete) is invisible to lookups by first-hit / newest-version semantics; that the merging cursor tolerates the duplicate child is covered by the runs (snapshots_between_install_and_clear counter), not proved (C.43)',
+                    'no memory model: relaxed atomics inside the skiplist and the wait list are taken as sequentially consistent'],
+        'level_text': 'Lean theorems about an executable small-step model of KeyValueStore::write / load / range_scan / _memtable_thread joined through the wait list (Blue.KvsConc: writers, flush thread, readers; one step per critical section or lock-free access), for EVERY interleaving: an invariant (inv_step) that gives - for the repaired read timestamp (last writer that left the wait list) - batch_atomic (a snapshot sees every begun batch entirely or not at all) and snapshot_stable (no later event, in particular no writer in flight at snapshot time, changes what a snapshot sees); for both timestamps no_stale_read, snapshot_after_return_covers, no_phantom, write_order, snapshot_covers_all (mem, imm, flushed hold every entry at every instant of rotate / install / clear); the hand-off theorem flushed_table_complete / insert_only_into_open_table (when the flush thread has passed the wait list every writer into imm has returned and inserted everything); and the counterexamples batch_atomic_fails_as_found / snapshot_unstable_as_found for the timestamp as found (D-6). Tied to the code by trace validation: 2..8 real client threads run puts, deletes, 2..4-key batches, loads and scans against one real KeyValueStore with the flush loop and 1..3 compaction loops running on small memtables; the event hooks record every critical section in real order; the Lean driver replays the recorded trace through the model step function (every event must be enabled; an insert into a flushed table is flagged) and computes what every read must return, which is compared with what the real reads returned; directed schedules (pause hooks) park a writer between two inserts / before its first insert / behind a slower writer. Independent oracle on the recorded history: exact per-key linearizability with the write order given by the sequence numbers, batch atomicity of every scan, scan order / bounds / tombstones, final state.',
+        'level_note': 'Trusted: Lean kernel; axioms propext, Quot.sound (Classical.choice in the Rollover theorems); hand-written model; correspondence is agreement on the thread schedules that occurred (widened by seeded yields and directed pauses) - real threads, so schedules differ between runs while verdicts depend only on the recorded trace; which read timestamp the tree under test has is extracted from the source (kvsReadTimestamp, tied by ConstsTieC06 to one of the two policies of the model) and probed at run time by the harness (stats: read_timestamp_policy); batch_atomic / snapshot_stable apply to a tree that reads at visible_seq_no, on a tree that reads at seq_no the check routes partial batches to known finding D-6. Assumptions: sequentially consistent steps, mutex / condvar semantics, linearizable skiplist, cursor stack and compaction correctness (other properties).',
+    },
 }
